@@ -151,3 +151,6 @@ func (c *Ctl) Points() []string {
 
 // Enabled reports whether /repo was built with the hooks compiled in.
 func Enabled() bool { return verifhook.Enabled }
+
+// Log appends a harness event (ack, submit ...) to the same sequence-numbered event log the hooks write to.
+func (c *Ctl) Log(format string, args ...any) { c.logEvent(format, args...) }
